@@ -376,6 +376,7 @@ func Run(r *ev.Run) {
 	nets3 := []string{"tcp", "tcp4", "udp6"}
 	for _, n := range []int{2, 3} {
 		n := n
+		reds := reds // per-family copy (captured by the closure below)
 		if n == 3 && r.Thorough() {
 			// keep the three-record family at ~50 M worlds: two ALPN shapes (none / 3 entries with spare capacity)
 			var keep []red
